@@ -13,6 +13,7 @@ import GocoinV.Model.NetParse
 import GocoinV.Model.NetParseFacts
 import GocoinV.Model.NetParseLocks
 import GocoinV.Proofs.C18
+import GocoinV.Proofs.C18State
 namespace GocoinV.Props.C18
 open GocoinV GocoinV.NetParse
 
@@ -321,6 +322,67 @@ theorem lock_scan_discriminates :
       ["panic with txpool.TxMutex held", "panic with c.Mutex held"] ∧
     NetParse.Locks.dropProved "OneConnection.ProcessBlockTxn" ["panic with txpool.TxMutex held"] =
       ["panic with txpool.TxMutex held"] := by decide +kernel
+
+/-! ### state that outlives one message (Model/NetParseState.lean) -/
+
+/-- EVERY assignment to a map-typed field of the connection object (counters, GetBlockInProgress, InvDone.Map) in
+    client/network - regenerated from the source in this run - stores a freshly made map: no function
+    "releases" such a map by storing nil (or a value the translator cannot classify). -/
+theorem conn_maps_never_nil :
+    ∀ a ∈ Gen.NetFacts.connMapAssigns, NetParse.State.keeps a.2.2 = true := by decide +kernel
+
+/-- CONFIGURATION HISTORIES. Let any sequence of functions of client/network run on a connection, each of
+    its assignments to the map field executing or not - whatever run-time switch of the configuration
+    (common.NoCounters …), counter or clock its guard reads, i.e. under every history of the operator
+    switching things on and off between Ticks and messages: no function that stores an entry (cntInc / cntAdd /
+    cntLockInc under c.Mutex in FetchMessage, Misbehave, SendRawMsg …; InvStore; GetBlockData / ProcessCmpctBlock)
+    ever meets a nil map, and the map is still there afterwards. -/
+theorem conn_maps_total (field : String) (h : NetParse.State.Hist) :
+    NetParse.State.runHist Gen.NetFacts.connMapAssigns Gen.NetFacts.connMapWrites field h true = some true :=
+  NetParse.State.runHist_keep _ _ field conn_maps_never_nil h
+
+/-- the facts the two previous theorems speak about are there: the three maps, Tick's re-allocation of the
+    counters, the three counter writers, and the model can tell the difference - with Tick storing `nil`
+    instead (the "do not keep an empty map per peer while counters are off" edit) the history
+    Tick (switch on), then any counting function (switch off again) panics; with the current facts it does not. -/
+theorem conn_maps_tracked :
+    Gen.NetFacts.connMapFields = ["GetBlockInProgress", "InvDone.Map", "X.Counters", "counters"] ∧
+    ("OneConnection.Tick", "counters", "make") ∈ Gen.NetFacts.connMapAssigns ∧
+    ("NewConnection", "counters", "make") ∈ Gen.NetFacts.connMapAssigns ∧
+    ("OneConnection.cntInc", "counters") ∈ Gen.NetFacts.connMapWrites ∧
+    ("OneConnection.cntAdd", "counters") ∈ Gen.NetFacts.connMapWrites ∧
+    ("OneConnection.cntLockInc", "counters") ∈ Gen.NetFacts.connMapWrites ∧
+    ("OneConnection.InvStore", "InvDone.Map") ∈ Gen.NetFacts.connMapWrites ∧
+    NetParse.State.runHist (NetParse.State.withKind Gen.NetFacts.connMapAssigns "OneConnection.Tick" "counters" "nil")
+      Gen.NetFacts.connMapWrites "counters" [("OneConnection.Tick", [true]), ("OneConnection.cntInc", [])] true = none ∧
+    NetParse.State.runHist Gen.NetFacts.connMapAssigns
+      Gen.NetFacts.connMapWrites "counters" [("OneConnection.Tick", [true]), ("OneConnection.cntInc", [])] true = some true := by
+  decide +kernel
+
+/-- TRUSTED BLOCKS. chain.PostCheckBlock's front with btc.Block.BuildTxListExt behind it, for a block whose
+    transaction list has not been built, never panics - for any bytes a peer sends behind the header, any
+    transaction decoder, and whether or not the block carries the Trusted mark (for which the coinbase tests,
+    `len(bl.Txs) == 0` among them, are skipped): the merkle computation's `mtr[len(mtr)-1]` always has at
+    least one element, because BuildTxListExt's head refuses a txn_count of zero. -/
+theorem postcheck_total (newTx : Bytes → Option Nat) (trusted : Bool) (raw : Bytes) (cbOk merkleOk : Bool) :
+    (NetParse.State.postCheck true newTx trusted raw cbOk merkleOk).isPanic = false :=
+  NetParse.State.postCheck_total newTx trusted raw cbOk merkleOk
+
+/-- … and that test is what it hangs on: with the head testing the offset only (as Block.UpdateContent, the
+    other decoder of the same field, does) an 80-byte header followed by txn_count = 0 and padding - sendable
+    by any peer that knows the public header of a pending trusted block - reaches CalcMerkle with no hashes;
+    the same bytes are refused under the current head, and refused cleanly for an untrusted block either way. -/
+theorem postcheck_count_guard_counterexample :
+    NetParse.State.postCheck false (fun _ => none) true NetParse.State.wEmptyBlock true true =
+      .panic "CalcMerkle: index out of range [-1]" ∧
+    NetParse.State.postCheck true (fun _ => none) true NetParse.State.wEmptyBlock true true = .err "bad-blk-length" ∧
+    NetParse.State.postCheck false (fun _ => none) false NetParse.State.wEmptyBlock true true = .err "bad-cb-missing" := by
+  decide +kernel
+
+/-- the two skeletons `postCheck` was written against are the ones regenerated from lib/btc and lib/chain now -/
+theorem block_front_facts_current :
+    Gen.NetFacts.BuildTxListHead = Expected.BuildTxListHead ∧ Gen.NetFacts.PostCheckFront = Expected.PostCheckFront :=
+  ⟨facts_BuildTxListHead, facts_PostCheckFront⟩
 
 -- OPEN (not modelled, hence not stated): "whole handler" totality including the backend —
 -- ProcessNewHeader / PostCheckBlock / mempool matching (incl. ProcessCmpctBlock's two "Same short ID - abort"
